@@ -29,7 +29,7 @@ def run(ctx, rep):
     rep.rule("R19-FAIL", "a machine error, and a version-aware failed verdict (V3: non-unit result), are returned as Err before a result is built", floor=2)
     rep.rule("R19-ORDER", "collections the ledger orders are sorted when the script context is built (spec table)", floor=8)
     rep.rule("R19-POINTER", "every sort of transaction inputs that yields positions keys on (transaction_id, index); reward accounts and voters use the shared comparators", floor=3)
-    rep.rule("R19-LOOKUP", "DataLookupTable::from_transaction visits every witness and every resolved input: no break / return inside its loops", floor=1)
+    rep.rule("R19-LOOKUP", "DataLookupTable::from_transaction visits every witness and every resolved input and keys datums by their original hash; find_script propagates every failed lookup", floor=3)
     rep.guarded("R19-VERSION", lambda: r_version(sh, rep))
     rep.guarded("R19-APPLY", lambda: r_apply(sh, rep))
     rep.guarded("R19-THREAD", lambda: r_thread(sh, rep))
@@ -227,6 +227,17 @@ def r_pointer(sh, rep):
                         n_sites += 1
                         ok = "transaction_id" in src and "index" in src
                         rep.check(ok, "R19-POINTER", "%s#%s#inputs-by-txid-and-index" % (q, c["m"]), sh.loc(rel, c), "%s orders transaction inputs with `%s`, which does not compare both transaction_id and index: inputs spending two outputs of the same transaction tie, so the position used as redeemer pointer differs from the one TxInfo and find_script derive from the full order" % (q, src[:80]), sample={"comparator": src[:120]})
+    # a comparator that compares a value with itself is constantly Equal: the key it was meant to add is ignored
+    for rel in (P1, SC, EV, TX):
+        for q, f in all_fns(sh.file(rel)):
+            if "body" not in f:
+                continue
+            for c in walk(f["body"]):
+                if c["k"] == "MethodCall" and c["m"] in ("cmp", "partial_cmp") and c["args"]:
+                    l, r = sh.nsrc(rel, c["recv"]), re.sub(r"^&+", "", sh.nsrc(rel, c["args"][0]))
+                    n_self = l == r
+                    if "transaction_id" in l or l.endswith(".index") or n_self:
+                        rep.check(not n_self, "R19-POINTER", "%s#cmp#%s" % (q, l[-40:]), sh.loc(rel, c), "`%s.cmp(&%s)` compares a value with itself: the comparator ignores this key, inputs that agree on the other keys keep their wire order, and the redeemer pointer phase one derives differs from the one the script context uses" % (l, r), nontrivial=False)
     # the derived Ord used by `.sorted()` on TransactionInput is (transaction_id, index) by field order in pallas: listed, not checked
     brk = find_fn(sh.file(P1), "build_redeemer_key")
     src = sh.nsrc(P1, brk["body"])
@@ -236,9 +247,47 @@ def r_pointer(sh, rep):
         rep.bad("R19-POINTER", "input-sort-sites", P1, "no explicit sort of transaction inputs found (anchor: build_redeemer_key)")
 
 
+def _orig_hash_locals(sh, f):
+    return {n["pat"]["name"] for n in walk(f["body"]) if n["k"] == "Local" and n["pat"]["k"] == "Ident" and n.get("init") is not None and any(x["k"] == "MethodCall" and x["m"] == "original_hash" for x in walk(n["init"]))}
+
+
 def r_lookup(sh, rep):
     f = find_method(sh.file(SC), "DataLookupTable", "from_transaction")
     rep.touched(SC, "DataLookupTable::from_transaction")
+    # witness datums are found by the hash the transaction's outputs carry, i.e. the hash of the datum's *original* bytes
+    ins = [c for c in walk(f["body"]) if c["k"] == "MethodCall" and c["m"] == "insert" and sh.nsrc(SC, c["recv"]) == "datum" and c["args"]]
+    okh = bool(ins) and all(any(x["k"] == "MethodCall" and x["m"] == "original_hash" for x in walk(c["args"][0])) or sh.nsrc(SC, c["args"][0]) in _orig_hash_locals(sh, f) for c in ins)
+    rep.check(okh, "R19-LOOKUP", "from_transaction#datums-keyed-by-original-hash", sh.loc(SC, ins[0]) if ins else sh.loc(SC, f), "the datum table must be keyed by KeepRaw::original_hash() (hash of the bytes as they are in the transaction): a hash recomputed from the decoded value differs whenever the witness is not in the encoder's own canonical form, and a datum that is present is reported missing", sample={"inserts": len(ins)})
+    # a failed lookup is an error of the simulation, for every script language
+    fs = find_fn(sh.file(SC), "find_script")
+    rep.touched(SC, "find_script")
+    tried = {id(t["e"]) for t in walk(fs["body"]) if t["k"] == "Try"}
+    calls = [c for c in walk(fs["body"]) if c["k"] == "Call" and call_name(c) in ("lookup_datum", "lookup_script")]
+    # also fine: the call is the value a closure returns (`.and_then(|..| { ..; lookup_script(&hash) })`), through blocks,
+    # if/else and match arms
+    def tails(t):
+        if t is None:
+            return
+        k = t.get("k")
+        if k == "Block":
+            if t.get("stmts"):
+                lastst = t["stmts"][-1]
+                if lastst.get("k") == "ExprStmt" and not lastst.get("semi"):
+                    tails(lastst.get("e"))
+        elif k == "If":
+            tails(t["then"])
+            tails(t.get("else"))
+        elif k == "Match":
+            for a in t["arms"]:
+                tails(a["body"])
+        else:
+            tried.add(id(t))
+
+    for cl in walk(fs["body"]):
+        if cl["k"] == "Closure":
+            tails(cl["body"])
+    loose = [c for c in calls if id(c) not in tried]
+    rep.check(bool(calls) and not loose, "R19-LOOKUP", "find_script#lookup-failures-propagate", sh.loc(SC, loose[0]) if loose else sh.loc(SC, fs), "the result of `%s(..)` is not propagated with `?`: a script or datum the transaction needs and does not provide must fail the simulation whatever the script's language (a V3 spend with an unresolvable datum hash would run without datum)" % (call_name(loose[0]) if loose else "-"), sample={"calls": len(calls)})
     bad = []
     for lp in walk(f["body"]):
         if lp["k"] in ("For", "While", "Loop"):
